@@ -31,10 +31,10 @@ bool AsymmetricAlgorithm::deriveKey(SymmetricKey** ppSymmetricKey, PublicKey*, P
 {
 	OUT(derive_n)++;
 	if (!IN(derive_ok)) return false;
-	vp_symkey_t* k = (vp_symkey_t*)malloc(sizeof(vp_symkey_t));
+	vp_symkey_t* k = VP_RAW_NEW(vp_symkey_t);
 	CK_ULONG n = IN(secret_len);
-	k->keyData.byteString.n = n;
-	for (int i = 0; i < 32; i++) k->keyData.byteString.d[i] = vp_in_secret[i];
+	VP_INIT_CONTAINER(k->keyData.byteString); VP_BV_SET_LEN(k->keyData.byteString, n);
+	for (int i = 0; i < 32; i++) if (VP_BV_ROOM(k->keyData.byteString, i)) VP_BV_AT(k->keyData.byteString, i) = vp_in_secret[i];
 	k->bitLen = n * 8;
 	*ppSymmetricKey = k;
 	return true;
